@@ -1,6 +1,7 @@
 (* C40 — proofs about the published description and the member ids. *)
 From Coq Require Import Strings.String FinFun.
 From DustDDS Require Import Base.Machine Lang.DeriveModel.
+From DustDDS Require KeyHash.Md5Model.
 Open Scope Z_scope.
 
 (* ------------------------------------------------------------------- ids *)
@@ -85,6 +86,21 @@ Lemma ids_hashed : forall h ms k m,
 Proof.
   intros h ms k m Hk Hh. destruct (nth_ids_from h ms 0 0 k m Hk) as [nx E].
   unfold struct_ids. rewrite E, Hh. reflexivity.
+Qed.
+
+(* ... and that value fits the 28 bits of an XTypes member id *)
+Lemma hash_id_28bit : forall n, 0 <= hash_id n < 268435456.
+Proof.
+  intros n. unfold hash_id. destruct (KeyHash.Md5Model.md5 (string_bytes n)) as [|b0 [|b1 [|b2 [|b3 r]]]]; cbv iota beta; try lia.
+  apply Z.mod_pos_bound. lia.
+Qed.
+
+Lemma ids_hashed_28bit : forall h ms k m,
+  nth_error ms k = Some m -> m_hashid m = true ->
+  exists i, nth_error (struct_ids h ms) k = Some i /\ i = hash_id (member_name h k m) /\ 0 <= i < 268435456.
+Proof.
+  intros h ms k m Hk Hh. exists (hash_id (member_name h k m)).
+  split; [exact (ids_hashed h ms k m Hk Hh)|]. split; [reflexivity|apply hash_id_28bit].
 Qed.
 
 (* Mutable: an explicit id is the member's id *)
